@@ -166,6 +166,26 @@ func MakeInvoice(amountMsat uint64, salt string) (req, preimage, hash string, er
 	return req, preimage, hash, err
 }
 
+// ForgeInvoice builds an invoice that carries the payment hash of another invoice but its own amount and signing key
+// (anybody can make one: the hash is public). It is not registered: no node of the network issued it.
+func ForgeInvoice(amountMsat uint64, hashHex string) (string, error) {
+	hb, err := hex.DecodeString(hashHex)
+	if err != nil || len(hb) != 32 {
+		return "", errors.New("bad payment hash")
+	}
+	var ph [32]byte
+	copy(ph[:], hb)
+	invoice, err := zpay32.NewInvoice(&chaincfg.SigNetParams, ph, time.Now(), zpay32.Amount(lnwire.MilliSatoshi(amountMsat)), zpay32.Description("forged"))
+	if err != nil {
+		return "", err
+	}
+	seed := sha256.Sum256([]byte("verif-forger-" + hashHex))
+	key := secp256k1.PrivKeyFromBytes(seed[:])
+	return invoice.Encode(zpay32.MessageSigner{
+		SignCompact: func(msg []byte) ([]byte, error) { return ecdsa.SignCompact(key, msg, true), nil },
+	})
+}
+
 // NewInvoice registers an invoice owned by owner ("" = outside payee).
 func (n *Network) NewInvoice(owner string, amountMsat uint64) (*Invoice, error) {
 	n.mu.Lock()
@@ -296,7 +316,7 @@ func (nd *Node) CreateInvoice(amount uint64) (lightning.Invoice, error) {
 		return lightning.Invoice{}, err
 	}
 	if nd.CreateInvoiceErr {
-		return lightning.Invoice{}, errors.New("lnmodel: cannot create invoice")
+		return lightning.Invoice{}, errors.New("verif: injected lightning error: cannot create invoice (rpc 10.0.7.12:10009)")
 	}
 	if amount > math.MaxUint64/1000 {
 		// amounts this large cannot be encoded; model a backend that still answers.
@@ -328,7 +348,7 @@ func (nd *Node) InvoiceStatus(hash string) (lightning.Invoice, error) {
 	defer nd.Net.mu.Unlock()
 	if nd.InvoiceStatusErr {
 		nd.Net.log(Call{Node: nd.Name, Name: "InvoiceStatus", Hash: hash, Answer: "error"})
-		return lightning.Invoice{}, errors.New("lnmodel: backend unavailable")
+		return lightning.Invoice{}, errors.New("verif: injected lightning error: backend unavailable (rpc 10.0.7.12:10009)")
 	}
 	inv, ok := nd.Net.Invoices[hash]
 	if !ok || inv.Owner != nd.Name {
@@ -464,7 +484,7 @@ func (nd *Node) pay(ctx context.Context, name, request string, amountMsat, maxFe
 		if p.Truth == TNone || p.Truth == TFailed {
 			p.Truth = TInflight
 		}
-		rerr = errors.New("lnmodel: transport error")
+		rerr = errors.New("verif: injected lightning error: transport error (rpc 10.0.7.12:10009)")
 	}
 	nd.Net.log(Call{Node: nd.Name, Name: name, Hash: hash, Amount: amountMsat, FeeLimit: maxFee, Answer: string(ans)})
 	auto := nd.AutoNotify
@@ -512,7 +532,7 @@ func (nd *Node) OutgoingPaymentStatus(ctx context.Context, hash string) (lightni
 		}
 		rerr = lightning.OutgoingPaymentNotFound
 	case StError:
-		rerr = errors.New("lnmodel: backend unavailable")
+		rerr = errors.New("verif: injected lightning error: backend unavailable (rpc 10.0.7.12:10009)")
 	case StFailed:
 		if p != nil && p.Truth != TSucceeded {
 			p.Truth = TFailed
